@@ -79,8 +79,10 @@ PROP = {
         {"name": "c04_arrfault_3", "src": "c04_arrfault.cpp", "sanitize": "asan", "flags": ["-DAF_PART=3"], "timeout_quick": 600},
         {"name": "c04_arrfault_4", "src": "c04_arrfault.cpp", "sanitize": "asan", "flags": ["-DAF_PART=4"], "timeout_quick": 600},
         {"name": "c04_arrfault_5", "src": "c04_arrfault.cpp", "sanitize": "asan", "flags": ["-DAF_PART=5"], "timeout_quick": 600},
+        {"name": "c04_arrfault_6", "src": "c04_arrfault.cpp", "sanitize": "asan", "flags": ["-DAF_PART=6"], "timeout_quick": 600},
         {"name": "c04_segfault_1", "src": "c04_segfault.cpp", "sanitize": "asan", "flags": ["-DSF_PART=1"], "timeout_quick": 600},
         {"name": "c04_segfault_2", "src": "c04_segfault.cpp", "sanitize": "asan", "flags": ["-DSF_PART=2"], "timeout_quick": 600},
+        {"name": "c04_segfault_3", "src": "c04_segfault.cpp", "sanitize": "asan", "flags": ["-DSF_PART=3"], "timeout_quick": 600},
     ] + [
         {"name": "c04_treefault_%d" % k, "src": "c04_treefault.cpp", "sanitize": "asan", "flags": ["-DTF_PART=%d" % k], "timeout_quick": 600}
         for k in range(1, 6)
@@ -104,6 +106,12 @@ PROP = {
              "moved-from marks, every memory-manager call incl. the refused one, live element objects and outstanding blocks - compared line by line; the "
              "property's own oracle (unchanged state after a failed strong operation, validity / no leak after any failure) runs beside it. "
              "distinct_nontrivial there = distinct (configuration, operation, k, count before) that raised. "
+             "Coverage round: + part 6 (Array<0> and ArrayIntCap<2> with a ReallocateInplace manager) and c04_segfault part 3 (sqrt/1, cnst/2 with Reallocate) of a 'not "
+             "nothrow-movable but nothrow-swappable' item (copy-and-swap idiom without move constructor; for the arrays the model's category copy-only with throwing "
+             "assignment); objects are also created by CreateCap / CreateCrt(count, creator) (model ops newcap / crt; every round starts with a sweep of CreateCrt over "
+             "all its fault positions: allocation(s), each creator call, none; property level: a failed call leaves no element object and no block, a completed one made "
+             "exactly count creator calls, the i-th for element i); c04_arrfault requests now and then a capacity whose byte size overflows size_t (Reserve, SetCount(n, item), "
+             "Array(n, item), CreateCap): std::bad_array_new_length before any fallible step, count, capacity, cells and ledger as before (model: `get`). "
              "(d) c04_treefault (model level, engine btreefault; 16 configurations in 5 executables): TreeSet of trivially relocatable / nothrow-move / copy-only / "
              "copy-only-with-nothrow-assignment items and TreeMap<key, V> with nothrow-move and copy-only values, unique and multi, node capacities 1, 2, 3, 4 and "
              "32 with one-block pools (every Node::Create is one Allocate, so the k-th allocation is an exact step of the model), TreeNode<> with its default arguments "
